@@ -22,12 +22,15 @@ EPS = 1e-9
 class FirstStep:
     """Awaitable that runs ``after()`` right after the first step of ``coro`` (transparent otherwise)."""
 
-    def __init__(self, coro, after):
+    def __init__(self, coro, after, before=None):
         self.coro = coro
         self.after = after
+        self.before = before
 
     def __await__(self):
         it = self.coro.__await__()
+        if self.before is not None:
+            self.before()
         try:
             y = it.send(None)
         except StopIteration as e:
@@ -94,7 +97,9 @@ class C13(Prop):
         limit = 1 + (s.draw(3, "limit") if deep else s.weighted((3, 2), "limit"))
         exp_steps = (None, 1024)[s.weighted((2, 1), "exp")]
         expiration = None if exp_steps is None else exp_steps * GRID
-        callers = [{"key": s.draw(n_keys, "key")} for _ in range(n_callers)]
+        callers = [{"key": s.draw(n_keys, "key"),
+                    # a call that does not bind (unknown keyword): the wrapped function raises TypeError when invoked
+                    "bad_call": int(s.chance(1, 10, "bad-call"))} for _ in range(n_callers)]
         inv_specs = [{"held": bool(s.draw(2, "held")), "raises": s.chance(1, 5, "inv-raises"),
                       # the invocation may end cancelled by itself (something it awaited was cancelled)
                       "self_cancel": s.chance(1, 8, "inv-self-cancel")}
@@ -114,6 +119,18 @@ class C13(Prop):
                        "invocations": inv_specs, "clock_jumps": jumps, "cancel_victims": cancels,
                        "sweep_victim": victim, "cancel_at_iteration": sim.inject_choice if profile == "sweep" else 0}
 
+        from haiway import MissingContext, State, ctx
+
+        class CallerTag(State):
+            value: int = -1
+
+        def visible_tag():
+            try:
+                return ctx.state(CallerTag).value
+            except MissingContext:
+                return "no-context"
+
+        arriving = {"caller": None, "tag": None}
         invs = []  # per invocation: dict
         kwargs = {"limit": limit}
         if expiration is not None:
@@ -126,9 +143,18 @@ class C13(Prop):
                    "exc": Injected(("inv", n)), "raises": spec["raises"], "cancel_seen": False, "started": False}
             invs.append(rec)
             sim.event("invocation-created", n, key)
+            # the invocation is a task the library starts on behalf of the arriving caller: it sees that caller's state
+            rec["starter"], rec["starter_tag"] = arriving["caller"], arriving["tag"]
+
+            def check_state(when):
+                got = visible_tag()
+                if got != rec["starter_tag"]:
+                    sim.fail("invocation-state", f"invocation {n} (started by caller {rec['starter']}, whose scope state was "
+                             f"{rec['starter_tag']!r}) observed {got!r} {when}", got=str(got) if isinstance(got, str) else "other-tag")
 
             async def body():
                 rec["started"] = True
+                check_state("when it started")
                 try:
                     await sim.gate(f"inv{n}", held=spec["held"])
                 except asyncio.CancelledError:
@@ -137,6 +163,7 @@ class C13(Prop):
                     raise
                 finally:
                     rec["done"] = True
+                check_state("after its gate opened")
                 sim.event("invocation-end", n)
                 if spec["self_cancel"]:
                     rec["self_cancelled"] = True
@@ -155,8 +182,8 @@ class C13(Prop):
                     return start_invocation(key)
             host = Host()
 
-            def cached(key):
-                return host.call(key)
+            def cached(key, **kw):
+                return host.call(key, **kw)
         else:
             @cache(**kwargs)
             @inspect.markcoroutinefunction
@@ -191,8 +218,17 @@ class C13(Prop):
                         sim.stats["expired_in_flight"] += 1
                         sim.nontrivial = True
 
+            def before_first_step():
+                arriving["caller"], arriving["tag"] = c, visible_tag()
+
             def after_first_step():
                 created = len(invs) - before
+                if callers[c]["bad_call"]:
+                    o["bad"] = True
+                    sim.stats["call_did_not_bind"] += 1
+                    if created:
+                        sim.fail("bad-call-invoked", f"caller {c}'s call did not bind but {created} invocation(s) were created")
+                    return
                 if created > 1:
                     sim.fail("double-invocation", f"arrival of caller {c} created {created} invocations")
                 if must_share:
@@ -226,14 +262,14 @@ class C13(Prop):
                         o["not_before"] = None
                         o["stale_limit"] = sim.now
 
+            bad_kw = {"no_such_parameter": 1} if callers[c]["bad_call"] else {}
             try:
                 if callers[c]["in_scope"]:
                     # the caller works inside its own scope: the shared invocation must not become a task of that scope
-                    from haiway import ctx
-                    async with ctx.scope(f"caller{c}"):
-                        r = await FirstStep(cached(key), after_first_step)
+                    async with ctx.scope(f"caller{c}", CallerTag(value=c)):
+                        r = await FirstStep(cached(key, **bad_kw), after_first_step, before_first_step)
                 else:
-                    r = await FirstStep(cached(key), after_first_step)
+                    r = await FirstStep(cached(key, **bad_kw), after_first_step, before_first_step)
             except asyncio.CancelledError as exc:
                 o["kind"], o["obj"] = "cancelled", exc
             except BaseException as exc:  # noqa: BLE001
@@ -315,6 +351,12 @@ class C13(Prop):
             if o["cancel_ret"]:
                 if o["kind"] != "cancelled":
                     sim.fail_post("cancel-swallowed", f"caller {c} was cancelled while waiting but ended with {o['kind']} {o['obj']!r}")
+                    return
+                continue
+            if o.get("bad"):
+                # the wrapped function rejected the call when invoked: its TypeError is the outcome and the cache is untouched
+                if not (o["kind"] == "raised" and isinstance(o["obj"], TypeError)):
+                    sim.fail_post("outcome", f"caller {c}'s call did not bind but it received {o['kind']} {o['obj']!r}")
                     return
                 continue
             if o["kind"] == "cancelled" and o["expected"] is not None and invs[o["expected"]].get("self_cancelled"):
